@@ -194,11 +194,19 @@ func runC17(c *core.Ctx) {
 					c.Count("schema_refused")
 					break
 				}
+				// a refused load that fails INSIDE an extend block, after the block has added a field to a type of the base
+				inside := ""
+				for _, d := range b.Defs {
+					if d.Kind == sgen.KObject && !d.Extend && len(d.Fields) > 0 {
+						inside = fmt.Sprintf("extend type %s { zq7fresh: Int %s: Int }\n", d.Name, d.Fields[0].Name)
+						break
+					}
+				}
 				steps := []struct {
 					load   string
 					refuse bool
 					now    *sgen.Schema
-				}{{"", false, b}, {refusedLoad, true, b}, {later, false, v.Schema}, {refusedLoad, true, v.Schema}}
+				}{{"", false, b}, {refusedLoad, true, b}, {inside, true, b}, {later, false, v.Schema}, {refusedLoad, true, v.Schema}, {inside, true, v.Schema}}
 				for i, stp := range steps {
 					scalarsBefore := ""
 					if stp.refuse {
